@@ -21,6 +21,12 @@ if "--demo-cfg" in sys.argv:
     env["RUSTFLAGS"] = "--cfg indicatif_verif"
 
 
+def srcfile(stem, ext):
+    """<stem><k>.<ext> as the sub-agents write it, or <stem>.<ext> as kept under /verif/seeded/<id>/"""
+    a = os.path.join(src, "%s%s.%s" % (stem, k, ext))
+    return a if os.path.exists(a) else os.path.join(src, "%s.%s" % (stem, ext))
+
+
 def sh(cmd, **kw):
     r = subprocess.run(cmd, cwd=wt, env=env, stdout=subprocess.PIPE, stderr=subprocess.STDOUT, text=True, **kw)
     return r.returncode, r.stdout
@@ -36,12 +42,12 @@ def clean():
 res = {"property": pid, "k": k, "tier": tier}
 clean()
 demo = "seed_demo%s" % k
-shutil.copy(os.path.join(src, "demo%s.rs" % k), os.path.join(wt, "tests", demo + ".rs"))
+shutil.copy(srcfile("demo", "rs"), os.path.join(wt, "tests", demo + ".rs"))
 demo_cmd = ["cargo", "test", "--offline", "--features", "in_memory,rayon,tokio,futures", "--test", demo, "--", "--test-threads=1"]
 rc, out = sh(demo_cmd, timeout=1800)
 res["demo_passes_without"] = rc == 0
 res["demo_without_tail"] = out[-600:]
-rc, out = sh(["git", "apply", os.path.join(src, "patch%s.diff" % k)])
+rc, out = sh(["git", "apply", srcfile("patch", "diff")])
 res["patch_applies"] = rc == 0
 if rc == 0:
     rc, out = sh(demo_cmd, timeout=1800)
